@@ -166,3 +166,131 @@ def parent_map(root: ast.AST) -> Dict[int, ast.AST]:
         for c in ast.iter_child_nodes(n):
             pm[id(c)] = n
     return pm
+
+
+class _ParamSubst(ast.NodeTransformer):
+    def __init__(self, mapping):
+        self.mapping = mapping
+
+    def visit_Name(self, node):
+        if isinstance(node.ctx, ast.Load) and node.id in self.mapping:
+            import copy
+            return copy.deepcopy(self.mapping[node.id])
+        return node
+
+
+def simple_return(fn) -> Optional[ast.expr]:
+    """The single returned expression of a helper whose body is only local
+    single assignments (and a docstring) followed by one ``return``; locals are
+    expanded.  None when the helper is not of that shape."""
+    body = [s for s in fn.body if not (isinstance(s, ast.Expr) and isinstance(s.value, ast.Constant))]
+    if not body or not isinstance(body[-1], ast.Return) or body[-1].value is None:
+        return None
+    for s in body[:-1]:
+        if not isinstance(s, (ast.Assign, ast.AnnAssign)):
+            return None
+    amap = single_assign_map(fn)
+    return expand_locals(body[-1].value, amap)
+
+
+def inline_helpers(expr: ast.expr, resolve, depth: int = 0) -> ast.expr:
+    """Inline calls of simple one-return helpers (see ``simple_return``).
+    ``resolve(call)`` returns (FunctionDef, skip_first_param) or None."""
+    import copy
+
+    class T(ast.NodeTransformer):
+        def visit_Call(self, node):
+            self.generic_visit(node)
+            if depth > 4:
+                return node
+            r = resolve(node)
+            if r is None:
+                return node
+            fn, skip = r
+            ret = simple_return(fn)
+            if ret is None:
+                return node
+            params = [a.arg for a in fn.args.posonlyargs + fn.args.args]
+            if skip and params:
+                params = params[1:]
+            mapping = {}
+            for p_, a in zip(params, node.args):
+                if isinstance(a, ast.Starred):
+                    return node
+                mapping[p_] = a
+            for k in node.keywords:
+                if k.arg is None:
+                    return node
+                mapping[k.arg] = k.value
+            defaults = fn.args.defaults
+            all_params = [a.arg for a in fn.args.posonlyargs + fn.args.args]
+            for p_, d in zip(all_params[len(all_params) - len(defaults):], defaults):
+                mapping.setdefault(p_, d)
+            if any(p_ not in mapping for p_ in params):
+                return node
+            out = _ParamSubst(mapping).visit(copy.deepcopy(ret))
+            return inline_helpers(out, resolve, depth + 1)
+
+    return ast.fix_missing_locations(T().visit(copy.deepcopy(expr)))
+
+
+def class_resolver(repo, cls_info, selfnames=("self", "cls")):
+    """resolver for ``inline_helpers``: self.h(...), Cls.h(...), module-level h(...)."""
+    def resolve(call: ast.Call):
+        f = call.func
+        if isinstance(f, ast.Attribute) and isinstance(f.value, ast.Name):
+            if f.value.id in selfnames or (cls_info is not None and f.value.id == cls_info.name):
+                r = cls_info.find_method(f.attr) if cls_info is not None else None
+                if r is not None:
+                    fn = r[1]
+                    decos = [ast.unparse(d) for d in fn.decorator_list]
+                    if "property" in decos:
+                        return None
+                    return fn, "staticmethod" not in decos
+        if isinstance(f, ast.Name) and cls_info is not None:
+            r = repo.resolve_name(cls_info.module, f.id)
+            if r and r[0] == "func":
+                return r[1].node, False
+        return None
+    return resolve
+
+
+def reachable_self_methods(cls_info, start: List[str]) -> Dict[str, ast.AST]:
+    """Methods reached from ``start`` through self.<m>/cls.<m>/Cls.<m> (incl. module helpers named in calls)."""
+    out: Dict[str, ast.AST] = {}
+    work = list(start)
+    while work:
+        n = work.pop()
+        if n in out:
+            continue
+        r = cls_info.find_method(n)
+        if r is None:
+            continue
+        out[n] = r[1]
+        for x in ast.walk(r[1]):
+            if isinstance(x, ast.Attribute) and isinstance(x.value, ast.Name) and x.value.id in ("self", "cls", cls_info.name) and cls_info.find_method(x.attr):
+                work.append(x.attr)
+    return out
+
+
+def substituted_helper_bodies(fn, cls_info) -> List[ast.AST]:
+    """fn's own body plus, for every ``self.h(args)`` call of a helper method of the
+    class, a copy of h's body with its parameters replaced by the call's arguments."""
+    import copy
+    out: List[ast.AST] = [fn]
+    for c in calls_in(fn):
+        if isinstance(c.func, ast.Attribute) and is_self_attr(c.func) and cls_info.find_method(c.func.attr):
+            h = cls_info.find_method(c.func.attr)[1]
+            if h is fn:
+                continue
+            params = [a.arg for a in h.args.posonlyargs + h.args.args][1:]
+            mapping = {}
+            for p_, a in zip(params, c.args):
+                mapping[p_] = a
+            for k in c.keywords:
+                if k.arg:
+                    mapping[k.arg] = k.value
+            body = copy.deepcopy(h)
+            body = _ParamSubst(mapping).visit(body)
+            out.append(ast.fix_missing_locations(body))
+    return out
